@@ -36,6 +36,23 @@ def arg_ty(b, op):
 
 # =========================================================================== C16
 
+def per_file_body(prog):
+    """The body that processes one file of the batch: the closure handed to rayon (`map_init` or `for_each_init`), with what it calls
+    through `Result::and_then(closure)` and private single-use helpers (`format_path`) spliced in."""
+    return prog.inlined(FF + "exec_format::{closure#0}", keep=ORCH_KEEP)
+
+
+def _handler_calls_under_err(prog, b):
+    """calls of a captured callable (the error handler) that are dominated by `<some Result> is Err`"""
+    out = []
+    for c in b.calls():
+        if c.callee not in ("core::ops::function::Fn::call", "core::ops::function::FnMut::call_mut", "core::ops::function::FnOnce::call_once"):
+            continue
+        if any(x[1] == "is" and x[2] == ("Err",) for x in dominating_variant_facts(prog, b, c.bb)):
+            out.append(c)
+    return out
+
+
 def glob_trigger_vocabulary(prog, rep, R):
     """C16.g — a path argument is expanded as a pattern only if it contains `*`; everything else that is not a directory is the file
     it names.  (Every further character that turns a name into a pattern — `?`, `[` — makes files whose names contain it
@@ -131,7 +148,7 @@ def c16a(prog, rep):
         oo = [c for c in ef.calls() if (c.callee or "").startswith("std::fs::OpenOptions::")]
         rep.check(sorted(c.callee for c in oo) == ["std::fs::OpenOptions::read"], R, "exec_format:only-read",
                   "exec_format configures OpenOptions beyond .read(true): %s" % sorted(c.callee for c in oo))
-        cl = prog.body(FF + "exec_format::{closure#0}")
+        cl = per_file_body(prog)
         if cl is not None:
             oo2 = sorted(c.callee for c in cl.calls() if (c.callee or "").startswith("std::fs::"))
             rep.check(oo2 == ["std::fs::OpenOptions::open"], R, "exec_format-closure:only-open",
@@ -413,7 +430,7 @@ def _static_length_sum(prog, rep, R, b, was, okb):
 
 def c16d(prog, rep):
     R = "C16.d"
-    b = prog.body(FF + "exec_format::{closure#0}")
+    b = per_file_body(prog)
     if not rep.check(b is not None, R, "anchor:exec_format-closure", "per-file closure of exec_format not found"):
         return
     ups = [u["name"] for u in b.j.get("upvars", [])]
@@ -432,8 +449,25 @@ def c16d(prog, rep):
         rep.check(question_propagated(b, c), R, "propagated:" + short(c.target), "result of %s is not `?`-propagated" % short(c.target), where=c.where())
     # the closure's value is the result of result_operation (error reaches for_each)
     o0 = og.of_place({"l": 0, "p": []})
-    rep.check(any(x[0] == "call" and x[1] == ro.bb for x in o0), R, "closure-returns-operation-result",
-              "the per-file closure does not return the result of result_operation")
+    returned = any(x[0] == "call" and x[1] == ro.bb for x in o0)
+    if not returned:
+        # fused pipeline (`for_each_init`): the result is consumed in the same body — it must be what the error handler is called for
+        for h in _handler_calls_under_err(prog, b):
+            if h is ro:
+                continue
+            for f in dominating_variant_facts(prog, b, h.bb):
+                if f[1] == "is" and f[2] == ("Err",):
+                    pass
+            # the tested value: any local whose origins include the operation's result and which is switched on before the handler call
+            for bb in sorted(b.reachable()):
+                t = b.blocks[bb]["term"]
+                if t["k"] == "switch" and b.dominates(bb, h.bb):
+                    for st in b.blocks[bb]["stmts"]:
+                        if st["k"] == "assign" and st["rv"]["k"] == "discr":
+                            if any(x[0] == "call" and x[1] == ro.bb for x in og.of_place(st["rv"]["place"])):
+                                returned = True
+    rep.check(returned, R, "closure-returns-operation-result",
+              "the per-file closure does not return the result of result_operation (nor hand its error to the error handler itself)")
     # the decoded text is the content of *this* file only: the reused read buffer is emptied first
     c18c(prog, rep, R)
     # what the formatter sees is the decoded contents, what result_operation sees is the formatter's output
@@ -513,14 +547,12 @@ def c16e(prog, rep):
     rep.floor(R, "Result-returning calls in file_formatter.rs", n, 30)
     # errors reach the handler: exec_format's for_each closure, the stdin paths, run()
     fe = prog.body(FF + "exec_format::{closure#1}")
+    if fe is None:
+        fe = per_file_body(prog)          # fused pipeline: the consumer is part of the per-file closure
     if rep.check(fe is not None, R, "anchor:for_each-closure", "for_each closure of exec_format not found"):
-        calls = [c for c in fe.calls() if c.callee == "core::ops::function::Fn::call"]
-        facts_ok = False
-        for c in calls:
-            f = dominating_variant_facts(prog, fe, c.bb)
-            if any(x[1] == "is" and x[2] == ("Err",) for x in f):
-                facts_ok = True
-        rep.check(len(calls) == 1 and facts_ok, R, "for_each:err->handler", "the per-file result is not handed to error_handler on Err")
+        hs = _handler_calls_under_err(prog, fe)
+        hs = [c for c in hs if not any(x[0] == "upvar" and x[2] == "result_operation" for x in Origins(fe).of_operand(c.args[0]))]
+        rep.check(len(hs) == 1, R, "for_each:err->handler", "the per-file result is not handed to error_handler on Err")
     # exit code: handler stores true, main selects FAILURE on it; no process::exit after argument parsing
     main = prog.body("bin:pasfmt::main")
     if rep.check(main is not None, R, "anchor:main", "bin main not found"):
@@ -1059,7 +1091,7 @@ def c18b(prog, rep):
 
 
 def c18c(prog, rep, R="C18.c"):
-    b = prog.body(FF + "exec_format::{closure#0}")
+    b = per_file_body(prog)
     if not rep.check(b is not None, R, "anchor:exec_format-closure", "per-file closure not found"):
         return
     clears = b.calls_to("alloc::vec::Vec::clear")
@@ -1088,7 +1120,7 @@ def c18c(prog, rep, R="C18.c"):
 
 def c18d(prog, rep):
     R = "C18.d"
-    b = prog.body(FF + "exec_format::{closure#0}")
+    b = prog.body(FF + "exec_format::{closure#0}")        # (capture modes are a fact of the closure itself, not of what is spliced in)
     if b is None:
         rep.fail(R, "anchor", "per-file closure not found")
         return
@@ -1099,9 +1131,11 @@ def c18d(prog, rep):
     ef = prog.body(FF + "exec_format")
     if ef is not None:
         pc = [c.callee for c in ef.calls() if (c.callee or "").startswith("rayon::")]
-        rep.check(sorted(pc) == sorted(["rayon::iter::IntoParallelIterator::into_par_iter", "rayon::iter::ParallelIterator::map_init", "rayon::iter::ParallelIterator::for_each"]), R,
+        shapes = [sorted(["rayon::iter::IntoParallelIterator::into_par_iter", "rayon::iter::ParallelIterator::map_init", "rayon::iter::ParallelIterator::for_each"]),
+                  sorted(["rayon::iter::IntoParallelIterator::into_par_iter", "rayon::iter::ParallelIterator::for_each_init"])]
+        rep.check(sorted(pc) in shapes, R,
                   "parallel-shape", "exec_format's parallel pipeline changed (no early exit / try_* / find_* adaptors allowed): %s" % sorted(pc), instance={"rayon_calls": sorted(pc)})
-        mi = ef.calls_to("rayon::iter::ParallelIterator::map_init")
+        mi = ef.calls_to("rayon::iter::ParallelIterator::map_init") + ef.calls_to("rayon::iter::ParallelIterator::for_each_init")
         if mi:
             a = mi[0].args[1]
             rep.check(a["k"] == "const" and norm(a.get("fn", "")) == "alloc::vec::Vec::new", R, "map_init-fresh-buffer", "map_init's per-worker state is not a fresh Vec::new")
